@@ -613,6 +613,8 @@ class PDFStandardSecurityHandlerV5(PDFStandardSecurityHandlerV4):
         self.length = 256
         self.oe = str_value(self.param["OE"])
         self.ue = str_value(self.param["UE"])
+        if len(self.oe) != 32 or len(self.ue) != 32:
+            raise PDFEncryptionError("Invalid /OE or /UE: param=%r" % self.param)
         self.o_hash = self.o[:32]
         self.o_validation_salt = self.o[32:40]
         self.o_key_salt = self.o[40:]
